@@ -37,6 +37,26 @@ def all_toolchains():
     return [(c, s) for c in sorted(_oracle.COMPILERS) for s in _oracle.STDS]
 
 
+ENVIRON_CHOICES = {
+    "SOURCE_DATE_EPOCH": ("0", "1", "1700000000", "4102444800", "253402300799"),
+    "TMPDIR": ("/tmp", "/nonexistent-tmp-dir", "/dev/shm"),
+    "HOME": ("/nonexistent-home", "/", "/root"),
+    "LANG": ("C", "POSIX", "en_US.UTF-8", "tr_TR.UTF-8", "de_DE.ISO-8859-1"),
+    "LC_ALL": ("C", "tr_TR.UTF-8"),
+    "COLUMNS": ("20", "400"),
+    "TZ": ("UTC", "Pacific/Kiritimati", "America/Anchorage"),
+    "PYTHONPATH": ("/nonexistent-pythonpath",),
+    "NO_COLOR": ("1",),
+    "TERM": ("dumb", "xterm-256color"),
+    "CI": ("true",),
+}
+
+
+def _environ(rng):
+    keys = rng.sample(sorted(ENVIRON_CHOICES), rng.choice((1, 1, 2, 3)))
+    return {k: rng.choice(ENVIRON_CHOICES[k]) for k in keys}
+
+
 def _listdir_spec(rng):
     r = rng.random()
     if r < 0.10:
@@ -92,6 +112,8 @@ def make_plan(tree, seed, i, tier="quick"):
         "git_repo": rng.choices(("tracked", "norepo", "untracked"), (0.7, 0.15, 0.15))[0],
         # the tree as a symlink farm (cp -rs, stow, Bazel's sandbox): every file is a link to the real one
         "symlink_farm": rng.random() < 0.15,
+        # environment variables build machines legitimately differ in
+        "environ": _environ(rng) if rng.random() < 0.3 else {},
     }
     if rng.random() < 0.25:
         env["extra_entries"][UNITS_DIR] = rng.sample(STRAY, rng.choice((1, 2, 3)))
@@ -306,6 +328,9 @@ def sweep_variants(plan, twin, tier):
         variants.append({"variant": "sweep-gitrepo-%s" % st, "faults": [], "env": {"git_repo": st}})
     # other benign environments, one at a time: line endings, stray directory entries, every clock
     variants.append({"variant": "sweep-crlf", "faults": [], "env": {"crlf": not plan["env"].get("crlf", False)}})
+    for k in sorted(ENVIRON_CHOICES):
+        for v in ENVIRON_CHOICES[k]:
+            variants.append({"variant": "sweep-environ-%s=%s" % (k, v), "faults": [], "env": {"environ": {k: v}}})
     variants.append({"variant": "sweep-symlink-farm", "faults": [], "env": {"symlink_farm": not plan["env"].get("symlink_farm", False)}})
     variants.append({"variant": "sweep-strays", "faults": [], "env": {"extra_entries": {UNITS_DIR: list(STRAY), CONSTANTS_DIR: list(STRAY), "au/code/au": list(STRAY[:4])}}})
     for i, clk in enumerate(CLOCKS):
